@@ -175,7 +175,19 @@ _AGENT_ADD = (" Additions: virtual time in microseconds (sub-millisecond advance
 for _k in ("C05", "C06", "C07", "C15", "C18"):
     PROPS[_k]["rule"] += _AGENT_ADD
 PROPS["C20"]["rule"] += (" Additions: the observed outstanding / validated sets are part of the compared reply log; a variant with a tracing subscriber installed; each history also run without draining under the model and, if the model fails, on its single-transaction projections (interference); shapes: staggered service, many peers, many transactions, extended schedules, stale instants; environment reads (getenv) trapped like clock reads.")
+_ADD6 = {
+    "C01": " In-memory raw attributes of 65536..131076 bytes into every typed decoder and Display.",
+    "C02": " Every buffer of up to 64 bytes is also digested under a tracing subscriber that formats every event (reach threshold on events received).",
+    "C03": " Every program is also applied to a builder observed between every two additions (byte_len, build, write_into, clone); its final serialisation is read back too.",
+    "C09": " Every mutant goes through Message::from_bytes and TryFrom<&[u8]>; an accepted mutant that the independent decoder refuses for any reason is a violation (accepted only if the corruption dissolved the FINGERPRINT into well-formed attributes).",
+    "C10": " Every sealing tail up to length 3 also at totals 65480..=65552 (sealing attributes at or beyond byte 65536).",
+    "C14": " Payload styles: magic cookie at header offsets, payloads that are STUN messages with consistent / inflated length, cookies everywhere, payloads that look like length-prefixed frames, all-ones, all-zeros.",
+    "C15": " Messages handed to the agent name addresses of the observed universe (ALTERNATE-SERVER next to every named error code, XOR-MAPPED-ADDRESS, RESPONSE-ORIGIN, OTHER-ADDRESS, XOR-PEER-ADDRESS).",
+    "C17": " Prefixes are also parsed under a tracing subscriber that formats every event (reach threshold on events received).",
+}
 for _k, _t in _ADD.items():
+    PROPS[_k]["rule"] += _t
+for _k, _t in _ADD6.items():
     PROPS[_k]["rule"] += _t
 
 # Every thorough run also executes the property's quick workload (another seed) on an
